@@ -43,6 +43,12 @@ def schema_cases(chk):
             add("argmax", n, 0, [])
             for c in range(n):
                 add("classchar", n, c, [])
+    if quick:
+        for n in (4, 5):
+            add("argmax", n, 0, [])
+            for c in range(n):
+                add("classchar", n, c, [])
+    for n in dims:
         for mm in [(FR(-1), None), (None, FR(1)), (FR(-1), FR(1)), (FR(0), FR(0)), (FR(1), FR(-1)), (FR(-1, 2), FR(2))]:
             add("infnorm", n, 0, [], minmax=mm)
     if not quick:
